@@ -172,6 +172,39 @@ func C12(c *core.Ctx) {
 				}
 			})
 		}
+		if !fedAll {
+			// … or to a worker of the package that is handed the covered wire and feeds
+			// every buffer of it (hmacSha256(key, wire))
+			core.Instrs(cs, func(in ssa.Instruction) {
+				ci, ok := in.(ssa.CallInstruction)
+				if !ok {
+					return
+				}
+				g := ci.Common().StaticCallee()
+				if g == nil || g.Blocks == nil || g.Pkg != cs.Pkg {
+					return
+				}
+				for i, a := range ci.Common().Args {
+					if a != covered || i >= len(g.Params) {
+						continue
+					}
+					gcov := ssa.Value(g.Params[i])
+					core.Instrs(g, func(in2 ssa.Instruction) {
+						c2, ok2 := in2.(ssa.CallInstruction)
+						if !ok2 || c2.Common().Method == nil || c2.Common().Method.Name() != "Write" || len(c2.Common().Args) != 1 {
+							return
+						}
+						ls := sl.Leaves(c2.Common().Args[0])
+						if len(ls) == 1 && ls[0].Val == gcov && strings.Join(ls[0].Via, "") == "[]" {
+							h := loopHeader(in2.Block())
+							if h != nil && everyIterationPasses(g, h, func(x ssa.Instruction) bool { return x == in2 }) {
+								fedAll = true
+							}
+						}
+					})
+				}
+			})
+		}
 		c.Decide(fedAll, "R12.1", "signer-covers-all-buffers:"+tn, p.Pos(cs.Pos()), "every buffer of the covered wire is written to the hash", tn+".ComputeSigValue does not feed every buffer of the covered wire to its hash (multi-buffer packets are signed over a subset of the signed portion)")
 	}
 	c.Floor("R12.1", "Signer implementations in std/security", nS, 7)
@@ -517,7 +550,20 @@ func C12(c *core.Ctx) {
 		}
 		isFailReturn := func(in ssa.Instruction) bool {
 			r, ok := in.(*ssa.Return)
-			return ok && len(r.Results) > 0 && core.IsNilConst(r.Results[0])
+			if !ok || len(r.Results) == 0 {
+				return false
+			}
+			if len(r.Results) >= 2 && core.IsNilConst(r.Results[0]) {
+				return true // MakeInterest itself: (nil, err)
+			}
+			// a helper split off it that returns only an error: a non-nil error fails
+			last := r.Results[len(r.Results)-1]
+			if n, isN := last.Type().(*types.Named); isN && n.Obj().Name() == "error" && !core.IsNilConst(last) {
+				if _, isConst := last.(*ssa.Const); !isConst {
+					return in.Parent() != mk
+				}
+			}
+			return false
 		}
 		okAll, n := true, 0
 		cut, _ := core.CutEdgesDeep(mk, neg(need))
